@@ -34,8 +34,9 @@ RULE = ('a case = (static attributes with quoting kinds, statement entries, valu
 ASSUMPTIONS = ['a dictionary-supplied value for a static name may appear at the static or at the dictionary position '
                '(position of dictionary-overridden names is compared as unordered)']
 
-NAMES = ['a', 'b', 'class', 'checked', 'title']
-CASEVAR = {'a': 'A', 'b': 'B', 'class': 'Class', 'checked': 'CHECKED', 'title': 'Title'}
+NAMES = ['a', 'b', 'class', 'checked', 'title', 'declare', 'noshade', 'selected', 'defer']
+CASEVAR = {'a': 'A', 'b': 'B', 'class': 'Class', 'checked': 'CHECKED', 'title': 'Title', 'declare': 'Declare', 'noshade': 'NOSHADE',
+           'selected': 'Selected', 'defer': 'DEFER'}
 VALS = ['none', 'default', 'empty', 'zero', 'false', 'true', 'str', 'hostile', 'seven']
 VALUE = {'none': None, 'empty': '', 'zero': 0, 'false': False, 'true': True, 'str': 'str', 'hostile': 'h<&>"\'x',
          'seven': 7}
@@ -54,15 +55,17 @@ HTML_BOOLS = {"compact", "nowrap", "ismap", "declare", "noshade", "checked", "di
 
 def ser_static(name, kind):
     return {'dq': ' %s="S%s"' % (name, name), 'sq': " %s='S%s'" % (name, name), 'unq': ' %s=S%s' % (name, name),
+            'dqent': ' %s="T&amp;J &lt;%s&gt; &#39;"' % (name, name), 'sqent': " %s='&quot;%s&quot; &amp; co'" % (name, name),
             'valueless': ' %s' % name, 'interp': ' %s="I${iv}"' % name, 'sqinterp': " %s='${iv}J'" % name, 'unqinterp': ' %s=${iv}' % name}[kind]
 
 
 def static_text(name, kind):
-    return {'dq': 'S' + name, 'sq': 'S' + name, 'unq': 'S' + name, 'valueless': '', 'interp': None, 'sqinterp': None, 'unqinterp': None}[kind]
+    return {'dq': 'S' + name, 'sq': 'S' + name, 'unq': 'S' + name, 'valueless': '',
+            'dqent': 'T&amp;J &lt;%s&gt; &#39;' % name, 'sqent': '&quot;%s&quot; &amp; co' % name, 'interp': None, 'sqinterp': None, 'unqinterp': None}[kind]
 
 
 def static_quote(kind):
-    return {'dq': '"', 'sq': "'", 'unq': '', 'valueless': '', 'interp': '"', 'sqinterp': "'", 'unqinterp': ''}[kind]
+    return {'dq': '"', 'sq': "'", 'unq': '', 'valueless': '', 'dqent': '"', 'sqent': "'", 'interp': '"', 'sqinterp': "'", 'unqinterp': ''}[kind]
 
 
 def esc(v, q):
@@ -295,7 +298,7 @@ def layer_exhaustive(ctx):
 def layer_random(ctx, n):
     rng = ctx.rng
     for case in range(n):
-        statics = [(nm if rng.random() < .8 else CASEVAR[nm], rng.choice(['dq', 'dq', 'sq', 'unq', 'valueless', 'interp', 'sqinterp', 'unqinterp']))
+        statics = [(nm if rng.random() < .8 else CASEVAR[nm], rng.choice(['dq', 'dq', 'sq', 'unq', 'valueless', 'interp', 'sqinterp', 'unqinterp', 'dqent', 'sqent']))
                    for nm in rng.sample(NAMES, rng.randint(0, 4))]
         static_l = {n.lower(): k for n, k in statics}
         entries = []
